@@ -20,7 +20,15 @@ def main():
     cases, seqs, counts = generate(c)
     out = run_seqs(c, seqs)
     seen = set()
-    for f in out["failures"]:
+    # A triple whose adjacent pair already fails (in the same context) shows nothing new: the pair is reported (or is a known finding)
+    # and the way two such deviations combine in a triple has no cause of its own.  Triples are reported only if both adjacent pairs are clean.
+    bad_pairs = {(f["ctx"], tuple(f["idx"])) for f in out["failures"] if len(f.get("idx") or []) == 2}
+    explained = 0
+    for f in sorted(out["failures"], key=lambda f: len(f.get("idx") or [])):
+        ix = f.get("idx") or []
+        if len(ix) == 3 and ((f["ctx"], (ix[0], ix[1])) in bad_pairs or (f["ctx"], (ix[1], ix[2])) in bad_pairs):
+            explained += 1
+            continue
         key = (f["kind"], f.get("cause"), f.get("ctx") if f.get("cause") in ("different", "diagnostics", "merged") else "")
         if key in seen:
             continue
@@ -29,7 +37,7 @@ def main():
         c.report({"kind": f["kind"], "cause": f.get("cause", ""), "what": f["what"] + f" [{f.get('cause')}; context {f['ctx']}; {f['kinds']}]", "text": f.get("text"),
                   "ctx": f["ctx"], "kinds": f["kinds"], "expected": f.get("expected"), "observed": f.get("observed"), "errors": f.get("errors"), "site": site})
     c.cov.update({"states": len(seqs), "transitions": len(seqs), "traces_validated_against_impl": out["cases"] - out["premise_not_met"], "exhaustive": True,
-                  "sequences": len(seqs), "premise_not_met": out["premise_not_met"]})
+                  "sequences": len(seqs), "premise_not_met": out["premise_not_met"], "triples_explained_by_a_failing_pair": explained})
     for i in (3, len(seqs) // 2, len(seqs) - 5):
         c.sample({"ctx": seqs[i]["ctx"], "statements": [" ".join(t) for t in seqs[i]["items"]]})
     c.finish()
